@@ -316,7 +316,7 @@ func (w *World) Status() map[string]string {
 				k = w.sc.ResultKey(r)
 			}
 			out[a.Key] = "done:" + k
-		case err != nil && err.Error() == "protocol: not finished":
+		case drv.IsNotFinished(err):
 			out[a.Key] = "running"
 		default:
 			out[a.Key] = "error:" + err.Error()
